@@ -167,6 +167,7 @@ func (e *oEnv) set(o types.Object, v oval) {
 func (e *oEnv) define(o types.Object, v oval) { e.vars[o] = &v }
 
 type oInterp struct {
+	signArith  bool             // set: differences and products of ordinates are followed by sign (floatclass.go)
 	floatClass *floatClass      // set: ordinates lie in one region of the float64 line (floatclass.go)
 	mutexState map[*oStruct]int // sync.Mutex / RWMutex values: -1 held exclusively, n > 0 shared by n
 	libPanic   string           // set by a library model that found the call fatal; raised by the caller
@@ -1487,6 +1488,11 @@ func (fr *oFrame) eval(e ast.Expr) oval {
 							}
 						}
 					}
+				}
+			}
+			if fr.it.signArith {
+				if v, ok := signBinop(x.Op, lv, fr.eval(x.Y)); ok {
+					return v
 				}
 			}
 			// string concatenation
@@ -2943,6 +2949,11 @@ func wrapInt(v oval, t types.Type) oval {
 func (it *oInterp) compareVals(op token.Token, l, r oval) oval {
 	if it.floatClass != nil {
 		if v, ok := it.floatClass.compare(op, l, r); ok {
+			return v
+		}
+	}
+	if it.signArith {
+		if v, ok := signCompare(op, l, r); ok {
 			return v
 		}
 	}
